@@ -43,7 +43,8 @@ def required_cells(tier):
             "stack:3": 3, "kind:identity": 3, "kind:nontp": 3,
             "chain:coupled2": 2, "chain:commuting": 2, "chain:uncoupled": 3,
             "chain-site:last": 2, "record_all:False": 5,
-            "control:extended-after-use": 4}
+            "control:extended-after-use": 4,
+            "chain:interleaved-additions": 3}
 
 
 def cases(tier, seed):
@@ -277,21 +278,46 @@ def run_chain(case):
     desc = []
     nkeys = int(rng.integers(1, 4))
     used = set()
+    interleave = bool(i % 3 == 1)
+    stacks = []
     for k in range(nkeys):
         site = [0, n - 1, int(rng.integers(0, n))][k % 3]
         step = int(rng.integers(0, nsteps + 1))
         is_post = bool(rng.random() < 0.5) and step < nsteps
+        if interleave and stacks:
+            # several sites controlled at the SAME step and side, their
+            # controls added in interleaved order (a, b, a, ...)
+            step, is_post = stacks[0][1], stacks[0][2]
         if (site, step, is_post) in used:
             continue
         used.add((site, step, is_post))
         stack = int(rng.integers(1, 4))
+        if interleave:
+            stack = max(stack, 2)
+        sups = []
         for _ in range(stack):
             kind = str(rng.choice(["unitary", "channel", "nontp", "left"]))
-            sup = scen.random_superop(rng, dims[site], kind)
-            cc.add_single_site_control(sup, site, step, post=is_post)
-            (post if is_post else pre).setdefault(step, []).append((site, sup))
+            sups.append(scen.random_superop(rng, dims[site], kind))
+        stacks.append((site, step, is_post, sups))
         desc.append({"site": site, "step": step, "post": is_post,
                      "stack": stack})
+    # order of addition: stack after stack, or a random merge that keeps the
+    # order within each (site, step, side)
+    todo = [(site, step, is_post, list(sups))
+            for site, step, is_post, sups in stacks]
+    n_switch, last = 0, None
+    while todo:
+        j = int(rng.integers(0, len(todo))) if interleave else 0
+        site, step, is_post, sups = todo[j]
+        sup = sups.pop(0)
+        if not sups:
+            todo.pop(j)
+        cc.add_single_site_control(sup, site, step, post=is_post)
+        (post if is_post else pre).setdefault(step, []).append((site, sup))
+        if last is not None and last != (site, step, is_post):
+            n_switch += 1
+        last = (site, step, is_post)
+    interleaved = n_switch >= len(stacks) and len(stacks) >= 2
     record = list(range(n))
     if n <= 3:
         record.append(tuple(range(n)))
@@ -326,6 +352,8 @@ def run_chain(case):
                 "detail": {"errs": e}})
             break
     cells = ["chain", "chain:" + ctype]
+    if interleaved:
+        cells.append("chain:interleaved-additions")
     for c in desc:
         cells.append("side:" + ("post" if c["post"] else "pre"))
         cells.append(f"stack:{c['stack']}")
